@@ -108,19 +108,21 @@ pub fn create_from_variables(
         str: format!("{ident}()").into(),
     };
     let args = args.into_iter().map(InstructionWithStr::from);
-    Ok(zip(function.params.iter(), args)
-        .map(|(param, arg)| {
-            let str = format!("{} := {}", param.name, arg.str).into();
-            InstructionWithStr {
-                instruction: Set {
-                    ident: param.name.clone(),
-                    instruction: arg,
-                }
-                .into(),
-                str,
+    // bind the function's own name first: a parameter of the same name shadows it,
+    // as in Function::exec_with_args
+    let params = zip(function.params.iter(), args).map(|(param, arg)| {
+        let str = format!("{} := {}", param.name, arg.str).into();
+        InstructionWithStr {
+            instruction: Set {
+                ident: param.name.clone(),
+                instruction: arg,
             }
-        })
-        .chain(std::iter::once(rec))
+            .into(),
+            str,
+        }
+    });
+    Ok(std::iter::once(rec)
+        .chain(params)
         .chain(std::iter::once(call))
         .collect())
 }
